@@ -1051,6 +1051,21 @@ def one_shot_reuse(fdef, generator_functions=()):
                 ci, cj = dict(chain(sites[i][0])), dict(chain(sites[j][0]))
                 if any(k in cj and cj[k] != v and 'test' not in (v, cj[k]) for k, v in ci.items()):
                     continue        # different arms of one if / try
+
+                def leaves_before(a, b):
+                    # a sits in an if-arm that does not contain b and that ends in return / raise: b cannot run after a in the same activation
+                    n_ = a
+                    while n_ in parent:
+                        par = parent[n_]
+                        if isinstance(par, ast.If):
+                            for arm in (par.body, par.orelse):
+                                if any(n_ is x for x in arm) and not any(b is y for x in arm for y in ast.walk(x)) and arm and isinstance(arm[-1], (ast.Return, ast.Raise)):
+                                    return True
+                        n_ = par
+                    return False
+                first, second = (sites[i][0], sites[j][0]) if (sites[i][0].lineno, sites[i][0].col_offset) <= (sites[j][0].lineno, sites[j][0].col_offset) else (sites[j][0], sites[i][0])
+                if leaves_before(first, second):
+                    continue
                 out.append((name, bs[0], sites[i][1], sites[j][1], f'`{name}` is {kind}: it is consumed at line {int(sites[i][0].lineno)} and again at line {int(sites[j][0].lineno)} - '
                             f'the second consumer sees an exhausted iterator (nothing)'))
                 done = True
